@@ -60,6 +60,7 @@ KERNELS = [
     ("tMulT", "transmat.h", hdr(r"operator\*", ["TransMat", "TransMat"]), "Mat", None),
     ("transT", "transmat.h", hdr(r"\btrans", ["TransMat"]), "Mat", None),
     ("matMulSym", "symmat.h", r"operator\*\s*\((?=const Mat<Float, Index, Exc>& A, const SymMat<)", "Mat", None),
+    ("symMul", "symmat.h", r"operator\*\s*\((?=const SymMat<Float, Index, Exc>& A,\s*const SymMat<)", "SymMat", None),
     ("dot", "vecbase.h", hdr(r"VecBase<Float, Index, Exc>::dot", ["VecBase"]), "Float", "VecBase"),
     # storage primitives: stores over a LIVE buffer (tie: forE_over / forE_inplace, Lemmas/KernelLoopsNested.lean)
     ("baseScale", "matvecbase.h", hdr(r"void operator\*=", ["Float"]), "this", "MatVecBase"),
@@ -67,6 +68,10 @@ KERNELS = [
     ("baseAdd", "matvecbase.h", hdr(r"void add", ["MatVecBase", "MatVecBase"]), "out:X", "MatVecBase"),
     ("baseSub", "matvecbase.h", hdr(r"void sub", ["MatVecBase", "MatVecBase"]), "out:X", "MatVecBase"),
 ]
+
+
+def has_ret(stmts):
+    return any(x[0] == "return" for x in stmts)
 
 
 def preprocess(body):
@@ -144,6 +149,8 @@ class Kernel:
         if obj in self.dims:
             c, ds = self.dims[obj]
             if c in ("Vec", "TransVec") and what in ("dim", "size"):
+                return ds[0]
+            if c == "SymMat" and what in ("dim", "rows", "cols"):
                 return ds[0]
             if c == "Mat" and what in ("rows", "cols"):
                 return ds[0 if what == "rows" else 1]
@@ -330,6 +337,8 @@ class Kernel:
                 self.assigned(s[2], acc)
             elif s[0] == "block":
                 self.assigned(s[1], acc)
+            elif s[0] == "if" and not s[3] and not has_ret(s[2]):
+                self.assigned(s[2], acc)
             elif s[0] in ("if", "return", "throw"):
                 bad(f"{self.name}: {s[0]} inside a loop")
         return acc
@@ -435,6 +444,12 @@ class Kernel:
                     self.pend[name] = self.pbuf[name]
                 self.set_var(name, self.nat(init, env), env, out, pad)
             return
+        if ty == "SymMat" and init and init[0] == "call" and init[1] == "SymMat_ctor" and len(init[2]) == 1:
+            d = self.nat(init[2][0], env)
+            self.kind[name] = "buf"
+            self.dims[name] = (ty, [d])
+            self.set_var(name, f"mkBuf ({d} * ({d} + 1) / 2)", env, out, pad, "Array K")
+            return
         if ty in ("Vec", "TransVec", "Mat") and init and init[0] == "call" and init[1] == ty + "_ctor":
             ds = [self.nat(a, env) for a in init[2]]
             if len(ds) != (2 if ty == "Mat" else 1):
@@ -533,11 +548,28 @@ class Kernel:
                 dead |= self.loop("0", f"({e} - {p})", "_w", s[2], [], env, out, pad)
             elif s[0] == "if":
                 c, a, b = s[1], s[2], s[3]
-                if not (not b and len(a) == 1 and a[0][0] == "return" and a[0][1] and a[0][1][0] == "call" and a[0][1][1] == "Mat"
-                        and len(a[0][1][2]) == 2 and c[0] == "bin" and c[1] == "==" and c[3] == ("num", "0") and self.ret == "Mat"):
-                    bad(f"{self.name}: if after the guard")
-                ds = [self.nat(x, env) for x in a[0][1][2]]
-                out.append(f"{pad}if {self.nat(c[2], env)} = 0 then pure ⟨{ds[0]}, {ds[1]}, mkBuf ({ds[0]} * {ds[1]})⟩ else do")
+                if has_ret(a):
+                    if not (not b and len(a) == 1 and a[0][0] == "return" and a[0][1] and a[0][1][0] == "call"
+                            and c[0] == "bin" and c[1] == "==" and c[3] == ("num", "0")):
+                        bad(f"{self.name}: if after the guard")
+                    r = a[0][1]
+                    if r[1] == "Mat" and len(r[2]) == 2 and self.ret == "Mat":
+                        ds = [self.nat(x, env) for x in r[2]]
+                        val = f"⟨{ds[0]}, {ds[1]}, mkBuf ({ds[0]} * {ds[1]})⟩"
+                    elif r[1] == "SymMat" and not r[2] and self.ret == "SymMat":
+                        val = "⟨0, #[]⟩"
+                    else:
+                        bad(f"{self.name}: early return {r}")
+                    out.append(f"{pad}if {self.nat(c[2], env)} = 0 then pure {val} else do")
+                else:
+                    # value-level `if (k > i) l += e;` on an index variable
+                    if not (not b and len(a) == 1 and a[0][0] == "expr" and a[0][1][0] == "assign" and a[0][1][1] == "+="
+                            and a[0][1][2][0] == "var" and self.kind.get(a[0][1][2][1]) == "nat" and a[0][1][2][1] in env
+                            and c[0] == "bin" and c[1] == ">"):
+                        bad(f"{self.name}: if {s}")
+                    v = a[0][1][2][1]
+                    out.append(f"{pad}let {v} := if {self.nat(c[3], env)} < {self.nat(c[2], env)} then {v} + {self.nat(a[0][1][3], env)} else {v}")
+                    continue
                 rest = stmts[stmts.index(s) + 1:]
                 self.stmts(rest, env, out, pad + "  ")
                 return
@@ -556,6 +588,9 @@ class Kernel:
         c, ds = self.dims[e[1]]
         if c != self.ret:
             bad(f"{self.name}: returns a {c}")
+        if c == "SymMat":
+            out.append(f"{pad}pure ⟨{ds[0]}, {e[1]}⟩")
+            return
         out.append(f"{pad}pure {e[1]}" if c != "Mat" else f"{pad}pure ⟨{ds[0]}, {ds[1]}, {e[1]}⟩")
 
     def emit(self):
@@ -593,7 +628,7 @@ class Kernel:
             out.append(f"  pure {self.ret[4:]}")
             rty = "Array K"
         else:
-            rty = {"Vec": "Vec K", "TransVec": "Vec K", "Mat": "Mat K", "Float": "K"}[self.ret]
+            rty = {"Vec": "Vec K", "TransVec": "Vec K", "Mat": "Mat K", "Float": "K", "SymMat": "SMat K"}[self.ret]
         if any("x - y" in ln for ln in out):
             binders.insert(0, "[Sub K]")
         head = f"def {self.name} {' '.join(binders)} : Except Err ({rty}) :=\n"
